@@ -186,7 +186,7 @@ emit()
 
 head = open(os.path.join(here, "risc_head.txt")).read() + open(os.path.join(here, "risc_parser.txt")).read()
 with open(os.path.join(here, "risc", "zz_contracts_verif.go"), "w") as f:
-    f.write(head)
+    f.write(head.rstrip("\n") + "\n")
     f.write("\n// ---- generated by /verif/contracts/gen_risc.py from the RV32IM table ----\n\n//@ mode bv\n\n")
     f.write("\n".join(out).rstrip("\n") + "\n")
 print("instructions:", len(TYPE), "lines:", len(out))
